@@ -112,11 +112,16 @@ def describe(f, case):
 
 def run_cases(chk, prop, cases_lines, tag, owner):
     exe, judge = build(chk)
+    chk.log("built harness and judge")
     work = os.path.join(common.BUILD, "work-%s-%d" % (chk.pid, os.getpid()))
     shutil.rmtree(work, ignore_errors=True)
     cases = polyrun.split_cases(cases_lines)
+    import time
+    t0 = time.time()
     kept, obs, crashes = polyrun.run_harness(exe, cases, work, tag)
+    t1 = time.time()
     res, stat, cov = run_judge(judge, kept, obs, work, tag, prop)
+    chk.log("harness %.1fs (%d cases, %d crashes), judge %.1fs" % (t1 - t0, len(cases), len(crashes), time.time() - t1))
     byid = polyrun.case_by_id(cases)
     out = {"stat": stat, "cov": cov, "fails": [], "undecided": 0, "crashes": crashes, "other": 0}
     for f in res:
